@@ -140,17 +140,20 @@ pub fn take_trace() -> Trace {
 
 /// Drop-in for `std::sync::LazyLock<T, fn() -> T>` whose once-cell is a scheduling point of the
 /// shuttle scheduler and is fresh in every execution (so every execution races the first use like a
-/// new process), while the value itself lives for the whole process like a real `static`
-/// (the initialiser is deterministic, so later executions produce the same value and drop it).
+/// new process), while the value itself lives for the whole process like a real `static`.
+///
+/// The initialisers are deterministic, so every execution must build the very same table: a later
+/// execution's value is compared with the stored one, counted in [`take_table_divergence`] if it
+/// differs, and dropped.
 #[cfg(verif_shuttle)]
-pub struct LazyLock<T: Sync + 'static> {
+pub struct LazyLock<T: TableEq + Sync + 'static> {
     once: shuttle::sync::Once,
     init: fn() -> T,
     value: std::sync::OnceLock<T>,
 }
 
 #[cfg(verif_shuttle)]
-impl<T: Sync + 'static> LazyLock<T> {
+impl<T: TableEq + Sync + 'static> LazyLock<T> {
     pub const fn new(init: fn() -> T) -> Self {
         Self {
             once: shuttle::sync::Once::new(),
@@ -161,16 +164,55 @@ impl<T: Sync + 'static> LazyLock<T> {
 }
 
 #[cfg(verif_shuttle)]
-impl<T: Sync + 'static> std::ops::Deref for LazyLock<T> {
+impl<T: TableEq + Sync + 'static> std::ops::Deref for LazyLock<T> {
     type Target = T;
 
     fn deref(&self) -> &T {
         self.once.call_once(|| {
             let value = (self.init)();
-            let _ = self.value.set(value);
+            if let Err(value) = self.value.set(value) {
+                let stored = self.value.get().expect("set failed, so there is a value");
+                if !value.table_eq(stored) {
+                    TABLE_DIVERGENCE.fetch_add(1, std::sync::atomic::Ordering::Relaxed);
+                }
+            }
         });
         self.value.get().expect("initialised by call_once")
     }
+}
+
+/// Byte-wise equality of two lookup tables.
+#[cfg(verif_shuttle)]
+pub trait TableEq {
+    fn table_eq(&self, other: &Self) -> bool;
+}
+
+#[cfg(verif_shuttle)]
+impl<T: 'static, const N: usize> TableEq for Box<[T; N]> {
+    fn table_eq(&self, other: &Self) -> bool {
+        let len = std::mem::size_of::<[T; N]>();
+        // SAFETY: the tables are arrays of integers (or of structs of integer arrays without padding).
+        unsafe {
+            std::slice::from_raw_parts(self.as_ptr().cast::<u8>(), len)
+                == std::slice::from_raw_parts(other.as_ptr().cast::<u8>(), len)
+        }
+    }
+}
+
+#[cfg(verif_shuttle)]
+impl TableEq for crate::engine::tables::ExpLog {
+    fn table_eq(&self, other: &Self) -> bool {
+        self.exp.table_eq(&other.exp) && self.log.table_eq(&other.log)
+    }
+}
+
+#[cfg(verif_shuttle)]
+static TABLE_DIVERGENCE: std::sync::atomic::AtomicU32 = std::sync::atomic::AtomicU32::new(0);
+
+/// Returns how many lazily built tables differed from the one built first in this process, and clears the count.
+#[cfg(verif_shuttle)]
+pub fn take_table_divergence() -> u32 {
+    TABLE_DIVERGENCE.swap(0, std::sync::atomic::Ordering::Relaxed)
 }
 
 /// A point at which the scheduler may switch threads.
